@@ -436,6 +436,25 @@ func init() {
 	}
 	regScenario("apply-fine1", mk(FSMPlain, false))
 	regScenario("apply-fine1-batching", mk(FSMBatching, true))
+	// the same with storage faults: a leader that steps down on a failed StoreLogs while a commit notification of
+	// its own is still unserviced must fail the calls in flight (or complete them through the FSM), never
+	// acknowledge them from the clean-up path
+	withStore := func(f func() *Scenario) func() *Scenario {
+		return func() *Scenario {
+			sc := f()
+			sc.Devs = DevStore
+			sc.Goal = func(w *World) bool {
+				if w.vals["go"] != 1 || !w.callsDone() {
+					return false
+				}
+				l := w.leader() // let a committed entry reach the FSM before the run is judged
+				return l == nil || l.r.AppliedIndex() == l.r.CommitIndex()
+			}
+			return sc
+		}
+	}
+	regScenario("apply-fine1-storeerr", withStore(mk(FSMPlain, false)))
+	regScenario("apply-fine1-batching-storeerr", withStore(mk(FSMBatching, true)))
 }
 
 func init() {
